@@ -479,7 +479,6 @@ def wf_cfg(spec: str, dev: str, stages: int, runs: int, extra: str) -> str:
 
 
 INVS = ("VIEW View\nINVARIANT TypeOK\nINVARIANT {agree}\nINVARIANT RepairedAgrees\nINVARIANT Supported\n"
-        "INVARIANT RbIdempotent\n"
         "PROPERTY Monotone\nPROPERTY NameLocal\n")
 SH_ALL = '{"fork", "call", "ufork", "uret", "merge1", "rb"}'
 SH_CORE = '{"fork", "call", "ufork", "merge1", "rb"}'
@@ -516,10 +515,12 @@ def run(ctx: Ctx) -> None:
                 ("6 ops, all shapes", handles_cfg("Spec", one, K1, UK, C2, 3, 6, ALL_DEV, SH_ALL, inv)),
                 ("6 ops, depth 4, no user forks",
                  handles_cfg("Spec", one, K1, UK, C2, 4, 6, ALL_DEV, '{"fork", "call", "merge1", "merge2", "rb"}', inv)),
-                ("5 ops, two names, wide shapes", handles_cfg("Spec", two, K1, UK, C1, 3, 5, ALL_DEV, SH_WIDE, inv))]
+                ("5 ops, two names, wide shapes", handles_cfg("Spec", two, K1, UK, C1, 3, 5, ALL_DEV, SH_WIDE, inv)),
+                ("4 ops, all shapes, rollback idempotence",
+                 handles_cfg("Spec", one, K1, UK, C2, 3, 4, ALL_DEV, SH_ALL, inv + "INVARIANT RbIdempotent\n"))]
     for what, cfg in main:
-        res = expect_clean(run_tlc("seq/Handles.tla", cfg, ctx.scratch, workers=ctx.pick(8, "auto"), timeout=1500,
-                                   heap="8g"), what)
+        res = expect_clean(run_tlc("seq/Handles.tla", cfg, ctx.scratch, workers=ctx.pick(4, "auto"), timeout=1500,
+                                   heap=ctx.pick("4g", "8g")), what)
         ctx.add_tlc(res)
         _dbg(ctx, f"{what}: {res.distinct} states")
     # (b) model-level controls: each deviation alone breaks Agree
@@ -536,7 +537,7 @@ def run(ctx: Ctx) -> None:
             "INVARIANT OnlyForkEdge\nPROPERTY NoFastRevertF\n")
     for stages, nruns in ctx.pick([(2, 4)], [(3, 4)]):
         wres = expect_clean(run_tlc("seq/HandlesWf.tla", wf_cfg("WSpec", ALL_DEV, stages, nruns, winv),
-                                    ctx.scratch, workers=ctx.pick(8, "auto"), timeout=1500),
+                                    ctx.scratch, workers=ctx.pick(4, "auto"), timeout=1500),
                             f"HandlesWf invariants ({stages} stages, {nruns} runs)")
         ctx.add_tlc(wres)
         _dbg(ctx, f"workflow model {stages} stages {nruns} runs: {wres.distinct} states")
